@@ -8,17 +8,17 @@ NOTE_COMMON = ("Trusted: go/ssa construction, the gosx interpreter and its std-l
                "Holds only within the per-entry bounds recorded in the evidence; map iteration order fixed to insertion order.")
 
 CLAIMS = {
- "C10": dict(text="Memory store and SQLite store (real stores/sqlite code over a database/sql model that parses the comparison, LIMIT and upsert guard out of the SQL text): offset order as one inductive step from an arbitrary base position (digit-witness encoding of the decimal rendering), read chains / streaming (batched and not) / save-load / isolation for every log length, limit and resume point within the bound. Bounded model checking, not a proof.",
+ "C10": dict(text="Memory store and SQLite store (real stores/sqlite code over a database/sql model that parses the comparison, LIMIT and upsert guard out of the SQL text): offset order as one inductive step from an arbitrary base position (digit-witness encoding of the decimal rendering), read chains / streaming (batched and not; two interleaved streams) / save-load / isolation for every log length, limit and resume point within the bound. Bounded model checking, not a proof.",
              ref="§3 C10", note=NOTE_COMMON + " The durable-streams store runs as the real client library over a Go-source transport model of the protocol (chunked / strict-offset / failing-read knobs symbolic). SQLite itself (pager, SQL engine, driver value conversion incl. timestamps with zones), a real durable-streams server and byte-level JSON are outside the claim; the SQLite lexicographic-order defect and the durable-streams limit/skip defect are recorded known findings."),
- "C11": dict(text="bus.Replay over the paged path, the memory streaming path and the SQLite streaming paths (single cursor and batched, over the database/sql model): every log length, start offset, batch size and single-fault position (callback error, cancellation, store/driver failure at a chosen query / row fetch / scan / close) within the bound is a symbolic variable; the oracle (gap-free prefix, nil iff complete, cause wrapped, no append, no handler) is discharged by the solver on every path; SQLite counterexamples are replayed against the real driver behind a fault-injecting database/sql/driver wrapper.",
+ "C11": dict(text="bus.Replay over the paged path, the memory streaming path and the SQLite streaming paths (single cursor and batched, over the database/sql model): every log length, start offset, batch size and single-fault position (callback error, cancellation, store/driver failure at a chosen query / row fetch / scan / close) within the bound is a symbolic variable; the oracle (gap-free prefix, nil iff complete, cause wrapped, no append, no handler) is discharged by the solver on every path; a log shared by two buses replayed from the replaying bus's own last offset, and ReplayWithUpcast with a failing upcaster; SQLite counterexamples are replayed against the real driver behind a fault-injecting database/sql/driver wrapper.",
              ref="§3 C11", note=NOTE_COMMON + " The durable-streams store is covered through the transport model under the real client library (its limit/skip defect is a recorded known finding); batched-stream cancellation is a recorded known finding."),
- "C09": dict(text="Persistent bus configuration: every subset of the other bus options with WithStore at every position, K publishes of value / pointer / custom-named events with symbolic fields; record visible to the handler of the same publish, one record per publish, type = EventType, decode = published value, offsets increasing - all discharged by the solver per path.",
+ "C09": dict(text="Persistent bus configuration: every subset of the other bus options with WithStore at every position, K publishes of value / pointer / custom-named events with symbolic fields; live, cancelled and expired publish contexts on the bundled MemoryStore; the durable-streams store with per-publish contexts cancelled afterwards; record visible to the handler of the same publish, one record per publish, type = EventType, decode = published value, offsets increasing - all discharged by the solver per path.",
              ref="§3 C09", note=NOTE_COMMON + " encoding/json is a tree model built from the real struct tags (byte-level encoding trusted)."),
- "C13": dict(text="Every pattern of ok / unencodable / rejected / deadline-expired outcomes over K publishes, with and without error handler and timeout: delivery unaffected, exactly one append attempt, one report per failure wrapping the cause, log = successes only, fresh replay subscriber sees exactly the successes.",
+ "C13": dict(text="Every pattern of ok / unencodable / rejected / deadline-expired outcomes over K publishes, with and without error handler and timeout: delivery unaffected, exactly one append attempt, one report per failure wrapping the cause (also when the store's error looks like a cancellation), log = successes only, fresh replay subscriber sees exactly the successes; the durable-streams store with a server that answers one append with 503.",
              ref="§3 C13", note=NOTE_COMMON + " context is a Go-source model; deadline expiry is a symbolic choice made by the harness store."),
- "C15": dict(text="One harness per event-type shape (value, pointer, custom name on value/pointer receiver, published as value/pointer) with an arbitrary SMT-string custom name: stored type = EventType, typed replay subscription and typed upcast source/target match it.",
+ "C15": dict(text="One harness per event-type shape (value, pointer, custom name on value/pointer receiver, published as value/pointer) with an arbitrary SMT-string custom name: stored type = EventType, typed replay subscription and typed upcast source/target match it, also after an upcasting replay; value-dependent names.",
              ref="§3 C15", note=NOTE_COMMON),
- "C16": dict(text="RegisterUpcastFunc as one inductive step from an arbitrary acyclic registry (acyclicity assumed through an uninterpreted rank function over SMT-string names): rejected iff empty/equal/nil/target-reaches-source; exhaustive call sequences over 3 names; apply() termination with raw upcasters returning arbitrary names, checked as an instruction budget.",
+ "C16": dict(text="RegisterUpcastFunc as one inductive step from an arbitrary acyclic registry (acyclicity assumed through an uninterpreted rank function over SMT-string names): rejected iff empty/equal/nil/target-reaches-source; exhaustive call sequences over 3 names; apply() termination with raw upcasters returning arbitrary names, checked as an instruction budget; upcasting a chain while another goroutine registers an edge or clears the registry.",
              ref="§3 C16", note=NOTE_COMMON + " Registry size bounded by E edges; two concurrent registrations (incl. closing a cycle from both ends) are covered under the preemption bound; WithUpcastOptions at construction is a separate entry."),
  "C01": dict(text="Registry as an inductive step against a reference registry: arbitrary pre-state (registrations over several types and handler identities, optional prior removal), ONE arbitrary API operation, then probe publishes and counts for every type; plus every Once/Async/Sequential/context-aware/filter option combination over consecutive publishes with symbolic values.",
              ref="§3 C01", note=NOTE_COMMON + " Shard routing with solver-chosen type names (replayed by renaming the declared types) and re-entrant operations from inside handlers are separate entries."),
@@ -28,20 +28,20 @@ CLAIMS = {
              ref="§3 C05", note=NOTE_COMMON),
  "C08": dict(text="Handler lists of sync/async x plain/context-aware handlers, cancellation before the call / by handler k / never, every subset of the four publish hooks: trace oracle over hook and handler start/end events, context values and cancellation seen by context-aware handlers; the otel module's hooks-as-observability composition is a separate entry over recording providers.",
              ref="§3 C08", note=NOTE_COMMON + " context is a Go-source model of package context."),
- "C17": dict(text="Every acyclic upcaster graph over 4 names within the edge bound (several upcasters per source), a failure at any single step: callback sees the whole chain's composition or the original event, error handler once with the failing step; typed upcaster = JSON of f(decoded).",
+ "C17": dict(text="Every acyclic upcaster graph over 4 names within the edge bound (several upcasters per source), a failure at any single step: callback sees the whole chain's composition or the original event, error handler once with the failing step; typed upcaster = JSON of f(decoded) incl. interface-typed source fields; the same through SubscribeWithReplay.",
              ref="§3 C17", note=NOTE_COMMON),
  "C12": dict(text="Every history of publishes (two event types), SubscribeWithReplay for two ids, and restarts within the length bound over the real memory stores; one fault per history (failure of any single store operation, or a crash right after any store operation, by a dead-process wrapper); oracle: no persisted event lost, log order within a run, redelivery only of positions never saved, saved offset monotone, exactly once without faults.",
-             ref="§3 C12, Appendix C", note=NOTE_COMMON + " The SQLite store is covered for fault-free histories through the database/sql model; a publisher interleaved with a running SubscribeWithReplay and concurrent live publishers are separate entries under the preemption bound (their defects are recorded known findings); the durable-streams store is outside this claim (see DESIGN)."),
- "C18": dict(text="Materializer driven through the real helpers, bus, memory store and Replay: every sequence of M insert/update/delete/reset/snapshot/unregistered messages over two entity types with SMT-string keys, strict or not, split into two sessions at any point; state compared with a last-writer-wins fold through a universally quantified probe key; resume over the SQLite store (database/sql model) as a separate entry.",
+             ref="§3 C12, Appendix C", note=NOTE_COMMON + " The SQLite store (file or :memory:) is covered for fault-free histories and for one failing driver operation through the database/sql model; a subscriber handler that publishes a follow-up event is part of the histories; a publisher interleaved with a running SubscribeWithReplay and concurrent live publishers are separate entries under the preemption bound (their defects are recorded known findings); the durable-streams store is outside this claim (see DESIGN)."),
+ "C18": dict(text="Materializer driven through the real helpers, bus, memory store and Replay: every sequence of M insert/update/delete/reset/snapshot/unregistered messages over two entity types with SMT-string keys, strict or not, split into two sessions at any point; state compared with a last-writer-wins fold through a universally quantified probe key; a longer-log entry over a smaller alphabet; resume over the SQLite store (database/sql model) as a separate entry.",
              ref="§3 C18, Appendix C", note=NOTE_COMMON),
  "C19": dict(text="Round trip at JSON-tree level for every helper x option subset x arbitrary strings/nested entity, protocol field names read back from the stored tree; Apply on an arbitrary document (invalid, or an arbitrary tree refined lazily by the decoder's own case distinctions): never panics, error leaves collections and LastOffset unchanged.",
              ref="§3 C19", note=NOTE_COMMON + " The byte-level JSON scanner/encoder (escaping, number syntax, UTF-8) is trusted std code outside the claim: 'every byte string' is covered as 'not JSON, or any tree the parser can produce'."),
- "C20": dict(text="Recording Observability whose start callbacks hand out child contexts with fresh ids; workloads mixing Once/Async/filtered/panicking handlers, cancelled contexts, absent/succeeding/failing persistence: pairs balanced, complete gets its start's context, error flags truthful, handler/persist contexts descend from the publish context.",
+ "C20": dict(text="Recording Observability whose start callbacks hand out child contexts with fresh ids; workloads mixing Once/Async/filtered/panicking handlers, cancelled contexts (also cancelled by a running handler), absent/succeeding/failing persistence and unencodable events: pairs balanced, complete gets its start's context, error flags truthful, handler/persist contexts descend from the publish context.",
              ref="§3 C20", note=NOTE_COMMON + " The OpenTelemetry implementation (otel module) runs over recording tracer/meter providers (Go-source model of the otel API surface it uses); the OTel SDK itself is outside the claim."),
- "C02": dict(text="Two goroutines performing short symbolic sequences of Subscribe(Once/filter)/Unsubscribe/Clear/Publish on shared handlers: every interleaving of their synchronisation operations within the preemption bound is executed, with invoke/return stamps and the real-time delivery rule of Appendix C plus the quiescent must/may registry as oracle; race monitor on.",
+ "C02": dict(text="Two goroutines performing short symbolic sequences of Subscribe(Once/filter)/Unsubscribe/Clear/Publish on shared handlers: every interleaving of their synchronisation operations within the preemption bound is executed, with invoke/return stamps and the real-time delivery rule of Appendix C plus the quiescent must/may registry as oracle; an Async(+Sequential) handler whose deliveries race with its removal; race monitor on.",
              ref="§3 C02, Appendix C", note=NOTE_COMMON + " Schedules are enumerated (lazy context-bounded scheme, iterative preemption bound), the solver decides the data under each schedule. Bounds: 2 goroutines, 2+1 (quick) / 2+2 (thorough) operations, at most 2 / 3 preemptions; more goroutines, operations or preemptions are outside the claim."),
- "C03": dict(text="Happens-before race monitor and deadlock detector over every pair of concurrent API operations (registry, persistence/replay, upcast registry, memory store, materializer) within the preemption bound, plus every single re-entrant call from handler, filter, before- and after-hook (writer-preferring RWMutex model).",
-             ref="§3 C03", note=NOTE_COMMON + " Outside: SQLite, durable-streams and OTel SDK concurrency (database/sql, modernc sqlite and net/http are not encoded), configuration setters, more than two concurrent operations, preemptions above the bound."),
+ "C03": dict(text="Happens-before race monitor and deadlock detector over every pair of concurrent API operations (registry, persistence/replay, upcast registry, memory store, materializer) within the preemption bound, plus every single re-entrant call from handler, filter, before- and after-hook, panic handler and persistence error handler (writer-preferring RWMutex model); SQLite store: replay callbacks calling back into the store under the database/sql connection-pool model.",
+             ref="§3 C03", note=NOTE_COMMON + " Outside: concurrency inside SQLite, durable-streams and the OTel SDK (modernc sqlite and net/http are not encoded; of database/sql only the connection-pool limit is modelled), configuration setters, more than two concurrent operations, preemptions above the bound."),
  "C06": dict(text="Async handlers that yield mid-way and publish second-level async work, two async handlers of one type, Wait and Shutdown(ctx) racing with a canceller goroutine and a Close-counting store, Shutdown called twice: every interleaving within the preemption bound.",
              ref="§3 C06", note=NOTE_COMMON + " 'Every processor count' is subsumed by 'every schedule within the preemption bound'; real timers are outside."),
  "C07": dict(text="Sequential handler (enter; yield; exit; may panic) under 2-3 concurrent synchronous publishers, under Async dispatch, through Publish[any] and with a replay subscription catching up while a live publish arrives: never two invocations inside, every event exactly once; publish order of Async+Sequential is a recorded known finding (KF-C07-async-order), still checked so that it is reported once.",
